@@ -3,6 +3,7 @@ zndriver: the Lean side of the line protocol.  One operation per input line, one
 `<op> …` runs the model, `spec:<op> …` the spec oracle.  Core-only (no Mathlib) so that it links.
 -/
 import ZnVerif.Ops.C04
+import ZnVerif.Ops.VarInputText
 import ZnVerif.Ops.Run
 import ZnVerif.Ops.C12
 import ZnVerif.Ops.C17
@@ -26,6 +27,7 @@ open ZnVerif.Ops
 /-- one handler per ops module; first `some` wins -/
 def handlers : List (String → List String → Option String) := [
   C04.handle,
+  VarInputText.handle,
   Run.handle,
   C12.handle,
   C17.handle,
